@@ -149,7 +149,7 @@ func nativeRunCases(p *interp.Program, cases []nativeCase, workDir string, race 
 			}
 			sb.WriteString("}},\n")
 		}
-		sb.WriteString("\t}\n\t// harness scripts create files by relative name: never inside the repository\n\tif err := os.Chdir(t.TempDir()); err != nil {\n\t\tt.Fatal(err)\n\t}\n\tonly := -1\n\tif s := os.Getenv(\"VERIF_CASE\"); s != \"\" {\n\t\tonly, _ = strconv.Atoi(s)\n\t}\n")
+		sb.WriteString("\t}\n\t// harness scripts create files by relative name: never inside the repository\n\tif wd, err := os.Getwd(); err == nil {\n\t\tos.Setenv(\"VERIF_PKG_DIR\", wd)\n\t}\n\tif err := os.Chdir(t.TempDir()); err != nil {\n\t\tt.Fatal(err)\n\t}\n\tonly := -1\n\tif s := os.Getenv(\"VERIF_CASE\"); s != \"\" {\n\t\tonly, _ = strconv.Atoi(s)\n\t}\n")
 		sb.WriteString("\tfor i, c := range cases {\n\t\tif only >= 0 && i != only {\n\t\t\tcontinue\n\t\t}\n\t\tout, obs := vrt.Run(c.fn, c.vec)\n\t\tvrt.Report(c.h, i, out, obs)\n\t}\n}\n")
 		tag := strings.ReplaceAll(pkg, "/", "_")
 		if tag == "" {
